@@ -178,7 +178,28 @@ def rotator_geometry_oracle(chk, rng, n):
             return
 
 
+switched = []
+
+
+def _switch_on():
+    """put the global auto-rotation switch back to its default"""
+    from pyroll.core import Config
+    if switched:
+        try:
+            del Config.ROLL_PASS_AUTO_ROTATION
+        except AttributeError:
+            pass
+        switched.clear()
+
+
 def edit_histories(chk, rng):
+    try:
+        return _edit_histories(chk, rng)
+    finally:
+        _switch_on()
+
+
+def _edit_histories(chk, rng):
     """histories on ONE sequence object: solve, change a rotation setting or the units in front of a pass, solve again.  After every solve
     the profile entering each pass must be the profile leaving the previous pass turned exactly once, by the angle the current arrangement
     calls for (geometry only: shapely.affinity.rotate of the predecessor's section)"""
@@ -236,9 +257,15 @@ def edit_histories(chk, rng):
         [('slice-keep-no-transports',), ('insert-rotator', 1, 90), ('slice-reassign-all',)], [('insert-rotator', 2, 90), ('setitem-same', 3)],
         [('insert-rotator', 2, 90), ('iadd-transport',), ('slice-reassign-all',)], [('extend-rotator-pass',), ('slice-window', 4, 7)],
         [('insert-rotator', 2, 90), ('pop-insert', 1)], [('insert-rotator', 4, 90), ('del-slice', 1, 2), ('slice-reassign-all',)],
+        # the global switch concerns the AUTOMATIC rotation only: with the switch off, a number set on a pass is applied, and explicit rotators turn
+        [('insert-rotator', 2, 90), ('auto-off',), ('set', 5, 30)], [('insert-rotator', 2, 90), ('auto-off',), ('set', 5, 1.0)],
+        [('insert-rotator', 2, 90), ('set', 5, 45), ('auto-off',), ('read-rotation',), ('set', 5, 60)],
+        # units wrapped into an inner sequence (a "line") and the whole flattened again: the arrangement is the same as before
+        [('insert-rotator', 2, 90), ('nest-flatten', 1, 4)], [('nest-flatten', 0, 2), ('insert-rotator', 2, 90)], [('insert-rotator', 4, 90), ('nest-flatten', 3, 6)],
     ]
     with RollPass.Profile.flow_stress(flow_stress):
         for script in scripts:
+            _switch_on()
             seq = fresh()
             done = []
             try:
@@ -282,6 +309,17 @@ def edit_histories(chk, rng):
                     seq.subunits.insert(op[1], u)
                 elif op[0] == 'del-slice':
                     del seq.subunits[op[1]:op[2]]
+                elif op[0] == 'auto-off':
+                    from pyroll.core import Config as _Cfg
+                    _Cfg.ROLL_PASS_AUTO_ROTATION = False
+                    switched.append(1)
+                    continue        # the next edit follows without a solve in between
+                elif op[0] == 'nest-flatten':
+                    from pyroll.core import PassSequence as _PS
+                    moved = list(seq.subunits[op[1]:op[2]])
+                    del seq.subunits[op[1]:op[2]]
+                    seq.subunits.insert(op[1], _PS(moved, label=f"line{len(done)}"))
+                    seq.flatten()
                 elif op[0] == 'read-rotation':
                     [getattr(u, 'rotation') for u in seq.units if isinstance(u, BaseRollPass)]
                     continue        # only looked at: the next edit follows without a solve in between
@@ -354,7 +392,9 @@ def run(chk):
     # solved sequences: count the turns actually made between consecutive passes
     P, T, R = ('pass', 'unset'), ('transport',), ('rotator', 90)
     solved = [([P, T, P, T, P], True), ([P, T, R, T, P], True), ([P, R, P, P], True), ([P, T, P], False), ([P, ('pass', False), P], True),
-              ([P, ('pass', 45)], True), ([R, P, ('other',), P], True)]
+              ([P, ('pass', 45)], True), ([R, P, ('other',), P], True),
+              # the global switch concerns the AUTOMATIC rotation only: a number set on a pass is applied with the switch off, too
+              ([P, ('pass', 45)], False), ([P, T, ('pass', 60)], False), ([P, R, P], False)]
     if chk.thorough:
         solved += [([P, T, R, P, R, T, P], True), ([P, P, P, P], True), ([P, ('pass', True), ('pass', 0)], False)]
     for units, auto in solved:
